@@ -45,6 +45,19 @@ func c11Run(line string) string {
 			}
 			eq = fmt.Sprintf(" eq=%v", c11Equal(dst.Elem(), v))
 		}
+		// the decoder above reads from a reader without Len(); the same bytes through Unmarshal
+		// (*bytes.Buffer) and through a streaming Decoder over a *bytes.Reader must give the same
+		if f2 := strings.Fields(out); len(f2) > 0 && f2[0] != "ok-huge" && !strings.Contains(out, " big") {
+			base := "err"
+			if f2[0] == "ok" {
+				base = "ok:" + f2[1]
+			}
+			for _, k := range []string{"um", "rdr"} {
+				if o := c11DecodeVia(t, k, data); o != base {
+					eq += " " + k + "=" + o
+				}
+			}
+		}
 		return vhHex(enc) + " | " + out + eq
 	case "menc", "mdec", "mrt":
 		return c11MapRun(f)
@@ -78,7 +91,7 @@ func c11Gen(r *vhRng) string {
 	if r.Chance(1, 12) { // a Go map: encoding (menc) or round trip (mrt)
 		return c11MapGen(r, r.Pick(0, 1, 1))
 	}
-	t := c11GenTopTy(r)
+	t := c11GenTopTy(r, true)
 	v := c11GenVal(r, t)
 	suffix := "-"
 	if r.Chance(1, 3) {
